@@ -8,7 +8,7 @@ def c02_shapes(tier):
     out = []
     for n, ring in geos:
         l = ring // n
-        k = 3 if tier == 'quick' else min(4, n + 2)
+        k = 3 if (tier == 'quick' or n > 2) else 4
         for rn in range(1, n + 1):
             if n % rn == 0 or True:
                 r_ms = rn * l
@@ -79,12 +79,12 @@ def c06_shapes(tier):
     # (q, b, d, override, k, values, -, full chain)
     if tier == 'quick':
         return [(2, 1, 1, -1, 4, 2), (3, 0, 2, 1, 4, 2), (0, 2, 1, 2, 3, 2), (1, 2, 3, -1, 4, 1), (2, 0, 1, -1, 2, 1, 0, 1)]
-    out = []
+    out = c06_shapes('quick')
     for q in (0, 1, 2, 3):
         for b in (0, 2):
             for d in (1, 3):
-                out.append((q, b, d, -1, 6, 2))
-    out += [(2, 1, 2, 0, 5, 3), (2, 1, 1, 3, 5, 3), (1, 0, 1, 2, 5, 3), (3, 2, 2, -1, 6, 3), (2, 1, 1, -1, 3, 2, 0, 1)]
+                out.append((q, b, d, -1, 4, 2))
+    out += [(2, 1, 2, 0, 4, 3), (2, 1, 1, 3, 4, 3), (1, 0, 1, 2, 4, 3), (2, 1, 1, -1, 5, 2)]
     return out
 
 def c07f_shapes(tier):
@@ -95,8 +95,8 @@ def c07f_shapes(tier):
     for r in (1, 2, 3, 10, 1000):
         for iv in (100, 1000, 10000):
             for mq in (0, 50, 2000):
-                out.append((r, iv, mq, 5))
-    out += [(0, 1000, 500, 3), (3, 1000, 500, 4, 0, 0, 0, 1)]
+                out.append((r, iv, mq, 4))
+    out += [(0, 1000, 500, 3), (3, 1000, 500, 4, 0, 0, 0, 1), (2, 1000, 500, 5), (10, 100, 50, 5)]
     return out
 
 def c07h_shapes(tier):
@@ -107,8 +107,8 @@ def c07h_shapes(tier):
     for q in (1, 2, 3, 7, 10, 150, 600):
         for d in (1, 3):
             for mq in (0, 50, 2000):
-                out.append((q, d, mq, 5, 2))
-    out += [(0, 1, 500, 3, 2), (2, 1, 500, 3, 2, 0, 0, 1)]
+                out.append((q, d, mq, 4, 2))
+    out += [(0, 1, 500, 3, 2), (2, 1, 500, 3, 2, 0, 0, 1), (2, 1, 500, 5, 2), (7, 1, 100, 5, 1)]
     return out
 
 def c04_shapes(tier):
@@ -182,10 +182,8 @@ def c09_shapes(tier):
     # (metric, strategy, history, second rule metric + 1)
     if tier == 'quick':
         return [(0, 0, 2, 0), (0, 1, 2, 0), (4, 0, 1, 0), (4, 1, 2, 0), (1, 0, 2, 0), (2, 0, 2, 0), (3, 0, 2, 0), (2, 0, 1, 4), (0, 1, 1, 3), (0, 1, 4, 0, 1), (3, 0, 1, 0, 0, 1)]
-    out = []
-    for m in range(5):
-        for st in ((0, 1) if m in (0, 4) else (0,)):
-            out.append((m, st, 3, 0))
+    out = c09_shapes('quick')
+    out += [(1, 0, 3, 0), (3, 0, 3, 0)]
     out += [(2, 0, 2, 4), (0, 1, 2, 3), (4, 1, 2, 2), (1, 0, 2, 5), (3, 1, 2, 1), (0, 1, 4, 0, 1), (4, 1, 4, 0, 1), (0, 1, 5, 0, 1),
             (3, 0, 1, 0, 0, 2), (3, 0, 2, 0, 0, 1), (1, 0, 2, 0, 0, 1), (2, 0, 2, 0, 0, 1), (0, 1, 2, 0, 0, 1), (4, 0, 2, 3, 0, 1)]
     return out
@@ -202,7 +200,7 @@ def c08_shapes(tier):
             for p in (1, 5, 20):
                 ce = 3 if c <= 1 else c
                 span = 2 * p * q // (ce + 1)
-                if span * (2 * p + 3) <= 60000 and q >= 10 * ce:
+                if span * (2 * p + 3) <= 8000 and q >= 10 * ce:
                     out += [(q, c, p, l) for l in (1, 2, 3, 4)]
                 if q >= 10 * ce:
                     out.append((q, c, p, 5))
@@ -342,7 +340,7 @@ PROPS = {
     'C09': {
         'level': 'model_checking',
         'bounds': 'all five metric types x both strategies, 1-2 rules; thresholds symbolic in quarters in [0,4] (CPU: [0,100]); injected load in quarters in [0,1], CPU in {0,25,50,75,100}; '
-                  'inbound history of 1-2 (quick) / 2-3 (thorough) entries with symbolic gaps in [0,600] ms, each completed after 10/100/250 ms or left open (plus a BBR pattern: two completed entries with response times from {1,100,1000} ms and two or three left in flight); probe inbound or outbound after a gap in [0,600] ms; selected shapes with 2-3 probes in a row (an admitted probe completes at once and is accounted, a rejected one must leave no trace in what the next probe sees)',
+                  'inbound history of 1-2 entries (thorough: 3 for two metric types, and more rule pairs) with symbolic gaps in [0,600] ms, each completed after 10/100/250 ms or left open (plus a BBR pattern: two completed entries with response times from {1,100,1000} ms and two or three left in flight); probe inbound or outbound after a gap in [0,600] ms; selected shapes with 2-3 probes in a row (an admitted probe completes at once and is accounted, a rejected one must leave no trace in what the next probe sees)',
         'assumptions': ['load/CPU readings injected through the verif_set_readings hook', 'chain of the real prepare, system and resource-statistic slots plus an observer slot',
                         'observed values recomputed from a ledger with the window function of the default metric (two 500 ms buckets)'],
         'scenarios': [
@@ -419,7 +417,7 @@ PROPS = {
     'C06': {
         'level': 'model_checking',
         'bounds': 'one hotspot QPS/reject rule on positional parameter 0: q in 0..3 per d in 1..3 s, burst 0..2, optional override for value 0; 1-3 distinct values (within capacity); '
-                  'k<=4 (quick) / <=6 requests; batch in [1,3]; t0 in [T,T+999], gaps in [0, 2.5 d] s (so exactly d and d+1 ms are in range); q, b, d concrete per shape '
+                  'k<=4 requests (thorough: more configurations, one with 5); batch in [1,3]; t0 in [T,T+999], gaps in [0, 2.5 d] s (so exactly d and d+1 ms are in range); q, b, d concrete per shape '
                   '(the refill term pass_time*q/(1000 d) stays linear)',
         'assumptions': ['driven through a chain of the real prepare and hotspot slots (statistic slots left out, they do not influence hotspot QPS control); one shape uses the complete global chain'],
         'scenarios': [
@@ -429,7 +427,7 @@ PROPS = {
     },
     'C07': {
         'level': 'model_checking',
-        'bounds': 'flow throttling: rate in {0,1,2,3,10,1000} per {100,1000,10000} ms, max queueing in {0,50,500,2000} ms, k<=4 (quick)/5 requests, arrival instants symbolic in ns '
+        'bounds': 'flow throttling: rate in {0,1,2,3,10,1000} per {100,1000,10000} ms, max queueing in {0,50,500,2000} ms, k<=4 requests (thorough: more configurations, two with 5), arrival instants symbolic in ns '
                   '(gaps in [0, 3 I/r + Q]), batch in [1,3]; pace compared with 1 ns slack per request (the implementation computes it in f64). '
                   'hotspot throttling: q in {0,1,2,3,7,10,150,600} per 1-3 s, max queueing {0,50,500,2000} ms, 1-2 values, batch in [1,2], ms clock, 1 ms rounding slack',
         'assumptions': ['virtual clock: sleep_for_ns/sleep_for_ms advance it, so "the caller was held" = the clock moved by at least the promised wait',
@@ -463,7 +461,7 @@ PROPS = {
     },
     'C02': {
         'level': 'model_checking',
-        'bounds': 'ring geometries and read windows enumerated as shapes; k<=3 (quick) / <=4 (thorough) writes then one read; '
+        'bounds': 'ring geometries and read windows enumerated as shapes; k<=3 writes (thorough: 4 for rings of at most 2 buckets, and more geometries) then one read; '
                   't0 in [1e12, 1e12+10*interval], gaps in [0, 3*interval], counts in [0,7]',
         'assumptions': ['timestamps are at least one interval after the epoch (start stamp 0 is the empty marker)',
                         'std containers, Arc, Mutex, atomics and enum_map are modelled at API level (mirsym/models.py)',
